@@ -168,9 +168,79 @@ def expectedTArith : List (String × String) :=
    ("/", "cur = cur / arg"), ("%", "cur = cur % arg"), (":", "cur = cur ** arg"), ("&", "cur = cur & arg"),
    ("|", "cur = cur | arg"), ("^", "cur = cur ^ arg"), ("~", "cur = ~cur"), ("_", "cur = -cur")]
 
+/-- the code AROUND the accumulation, in the same normal form: how a target is iterated
+    (`target_iter`: the registry's `iterate` handler — `iter` for every iterable, so the items of a
+    list / tuple / range / generator / set / dict target are what `iter()` yields), what the
+    constructors keep (`spec`, `size`, `subspec`/`init`/`op`; Sum = iadd from int(), Count = +1
+    per item whatever it is, Flatten = iadd from list(), Merge = update from dict()), and the
+    non-Group path of Fold (a Fold inside a Fold's subspec is a plain fold of the item) -/
+def expectedAround : List (String × Nat × String) :=
+  [("target_iter", 0, "L0 = scope[TargetRegistry].get_handler('iterate', target, path=scope[Path])"),
+   ("target_iter", 0, "try"),
+   ("target_iter", 1, "L1 = L0(target)"),
+   ("target_iter", 0, "except Exception"),
+   ("target_iter", 1, "raise TypeError"),
+   ("target_iter", 0, "return L1"),
+   ("Group.__init__", 0, "self.spec = spec"),
+   ("Sample.__init__", 0, "self.size = size"),
+   ("Fold.__init__", 0, "self.subspec = subspec"),
+   ("Fold.__init__", 0, "self.init = init"),
+   ("Fold.__init__", 0, "self.op = op"),
+   ("Fold.__init__", 0, "if callable(op)"),
+   ("Fold.__init__", 1, "if not callable(init)"),
+   ("Fold.__init__", 2, "raise TypeError"),
+   ("Fold.__init__", 0, "else"),
+   ("Fold.__init__", 1, "raise TypeError"),
+   ("Fold.glomit", 0, "L0 = scope[MODE] is GROUP and scope.get(CUR_AGG) is None"),
+   ("Fold.glomit", 0, "if L0"),
+   ("Fold.glomit", 1, "scope[CUR_AGG] = self"),
+   ("Fold.glomit", 0, "if self.subspec is not T"),
+   ("Fold.glomit", 1, "target = scope[glom](target, self.subspec, scope)"),
+   ("Fold.glomit", 0, "if L0"),
+   ("Fold.glomit", 1, "return self._agg(target, scope[ACC_TREE])"),
+   ("Fold.glomit", 0, "else"),
+   ("Fold.glomit", 1, "try"),
+   ("Fold.glomit", 2, "L1 = target_iter(target, scope)"),
+   ("Fold.glomit", 1, "except UnregisteredTarget"),
+   ("Fold.glomit", 2, "raise FoldError"),
+   ("Fold.glomit", 1, "return self._fold(L1)"),
+   ("Fold._fold", 0, "L0, L1 = (self.init(), self.op)"),
+   ("Fold._fold", 0, "for L2 in iterator"),
+   ("Fold._fold", 1, "L0 = L1(L0, L2)"),
+   ("Fold._fold", 0, "return L0"),
+   ("Sum.__init__", 0, "super().__init__(subspec=subspec, init=init, op=operator.iadd)"),
+   ("Count.__init__", 0, "super().__init__(subspec=T, init=int, op=lambda cur, val: cur + 1)"),
+   ("Flatten.__init__", 0, "if init == 'lazy'"),
+   ("Flatten.__init__", 1, "self.lazy = True"),
+   ("Flatten.__init__", 1, "init = list"),
+   ("Flatten.__init__", 0, "else"),
+   ("Flatten.__init__", 1, "self.lazy = False"),
+   ("Flatten.__init__", 0, "super().__init__(subspec=subspec, init=init, op=operator.iadd)"),
+   ("Merge.__init__", 0, "if op is None"),
+   ("Merge.__init__", 1, "op = 'update'"),
+   ("Merge.__init__", 0, "if isinstance(op, basestring)"),
+   ("Merge.__init__", 1, "L0 = init()"),
+   ("Merge.__init__", 1, "op = getattr(type(L0), op, None)"),
+   ("Merge.__init__", 0, "if callable(op)"),
+   ("Merge.__init__", 1, "super().__init__(subspec=subspec, init=init, op=op)"),
+   ("Merge.__init__", 0, "else"),
+   ("Merge.__init__", 1, "raise ValueError")]
+
+/-- every method of the classes of Group mode: a new method is a new place for state / behaviour -/
+def expectedMethods : List (String × String) :=
+  [("Group", "__init__"), ("Group", "glomit"), ("Group", "__repr__"), ("First", "agg"),
+   ("First", "__repr__"), ("Avg", "agg"), ("Avg", "__repr__"), ("Max", "agg"),
+   ("Max", "__repr__"), ("Min", "agg"), ("Min", "__repr__"), ("Sample", "__init__"),
+   ("Sample", "agg"), ("Sample", "__repr__"), ("Limit", "__init__"), ("Limit", "glomit"),
+   ("Limit", "__repr__"), ("Fold", "__init__"), ("Fold", "glomit"), ("Fold", "_fold"),
+   ("Fold", "_agg"), ("Fold", "__repr__"), ("Sum", "__init__"), ("Sum", "__repr__"),
+   ("Count", "__init__"), ("Count", "__repr__"), ("Flatten", "__init__"), ("Flatten", "_fold"),
+   ("Flatten", "__repr__"), ("Merge", "__init__"), ("Merge", "_fold"), ("Merge", "_agg")]
+
 def WFSrc (stmts : List (String × Nat × String)) (slots : List (String × String))
-    (globals : List (String × String)) (globalStmts : List String) (tArith : List (String × String)) : Bool :=
+    (globals : List (String × String)) (globalStmts : List String) (tArith : List (String × String))
+    (around : List (String × Nat × String)) (methods : List (String × String)) : Bool :=
   stmts == expectedStmts && slots == expectedSlots && globals == expectedGlobals &&
-  globalStmts.isEmpty && tArith == expectedTArith
+  globalStmts.isEmpty && tArith == expectedTArith && around == expectedAround && methods == expectedMethods
 
 end Glom.C16
